@@ -226,7 +226,10 @@ PROPS = {
                    "to what was already sent or is still buffered; "
                    "Mux::verify accepts only configurations asking for at most 2^13 streams per direction, and spawn_streams -- whatever stream "
                    "counts the PEER announces in its handshake -- allocates ids that fit the 13-bit field (StreamId::new's assert!, the `as u16`) and creates per capability exactly "
-                   "min(own limit, limit the peer announced, 0 if it announced none) reusable streams.",
+                   "min(own limit, limit the peer announced, 0 if it announced none) reusable streams. The handshake itself: Mux::handshake announces for each "
+                   "direction exactly this side's configured per-capability limits of THAT direction; mux::handshake::read_max_streams / Handshake::read "
+                   "accept a peer's announcement iff every entry is complete and no capability is announced twice, take it over entry by entry, and do not "
+                   "mix up the two directions (prost types generated from mux.proto).",
         level_note="Not decided: ReusableStream::run (three-way OPEN, lock hand-over between transient streams, CLOSE on drop) -- concurrent tasks "
                    "per stream id -- and therefore the count of simultaneously open transient streams; the "
                    "writer task's `as u16` (covered only through Config::verify's bound). read_frame_size > 0 is a precondition on the local "
